@@ -101,6 +101,9 @@ func (s *scripted[T]) Next(ctx context.Context) (T, error) {
 	s.mu.Lock()
 	defer s.mu.Unlock()
 	var zero T
+	if ctx.Err() != nil {
+		return zero, ctx.Err()
+	}
 	if s.stopped || s.pos >= len(s.evs) {
 		return zero, storage.ErrIteratorDone
 	}
@@ -116,6 +119,9 @@ func (s *scripted[T]) Head(ctx context.Context) (T, error) {
 	s.mu.Lock()
 	defer s.mu.Unlock()
 	var zero T
+	if ctx.Err() != nil {
+		return zero, ctx.Err()
+	}
 	if s.stopped || s.pos >= len(s.evs) {
 		return zero, storage.ErrIteratorDone
 	}
